@@ -250,8 +250,6 @@ class TestCase(unittest.TestCase):
         if runTest is None:
             runTest = getattr(test_method, "_run_test_with", self.run_tests_with)
         self.__RunTest = runTest
-        if getattr(test_method, "__unittest_expecting_failure__", False):
-            setattr(self, self._testMethodName, _expectedFailure(test_method))
         # Used internally for onException processing - used to gather extra
         # data from exceptions.
         self.__exception_handlers = []
@@ -723,6 +721,12 @@ class TestCase(unittest.TestCase):
                     "no such test method in %s: %s" % (self.__class__, method_name)
                 )
         else:
+            if getattr(m, "__unittest_expecting_failure__", False):
+                # unittest.expectedFailure: wrapped here, when the method is
+                # looked up, rather than once in __init__ - a bound wrapper
+                # kept on the instance would go on running the original test
+                # object after copy.copy() (clone_test_with_new_id).
+                m = _expectedFailure(m)
             return m
 
     def _run_test_method(self, result):
